@@ -22,6 +22,7 @@ DRIVER = 'drivers/c04_controls.py'
 _lock = threading.Lock()
 
 QUICK = [('Controls_q1.cfg', ('AddParam', 'Emit')),
+         ('Controls_q6.cfg', ('AddParam', 'AddVariant', 'Emit')),
          ('Controls_q5.cfg', ('AddParam', 'Emit')),
          ('Controls_q2.cfg', ('AddParam', 'Emit')),
          ('Controls_q3.cfg', ('AddParam', 'AddBound', 'OpenWrap', 'Emit')),
@@ -136,6 +137,22 @@ def rename(d, rnd):
     return d
 
 
+def pad_variants(d):
+    """give every variant whose request asks for a full-name length fl the key that makes
+    len(defname + '.' + key) == fl (bookkeeping; TraceControls measures the real names)"""
+    vs = []
+    for v in d['variants']:
+        v = dict(v)
+        fl = v.get('fl', 0)
+        if fl:
+            pad = fl - len(d['name']) - 1 - len(v['n'])
+            if pad < 0:
+                raise MachineryError('cannot make variant name of length %d for %s' % (fl, d['name']))
+            v['n'] = v['n'] + 'x' * pad
+        vs.append(v)
+    return dict(d, variants=vs)
+
+
 def features(d, why=''):
     """input class of a request, used in violation signatures"""
     fs = set()
@@ -157,6 +174,9 @@ def features(d, why=''):
                 fs.add('zero_default')
     if d['variants']:
         fs.add('variants')
+        n = max(len(d['name']) + 1 + len(v['n']) for v in d['variants'])
+        if n >= 30:
+            fs.add('variant_name_%d' % n if n <= 33 else 'variant_name_long')
     return '+'.join(sorted(fs)) or 'plain'
 
 
@@ -281,12 +301,13 @@ def run(ctx):
             continue
         seen.add(k)
         i = len(cases)
-        d = dict(d, name='d%d' % i)
+        d = dict(d, name='d%d' % i if i % 2 else ('def%d' % i).ljust(18, '_'))
         if i % 3 == 1:
             d = rename(d, rnd)
+        d = pad_variants(d)
         cases.append(dict(id=i, d=d, calls=calls_for(d)))
         if nontrivial(d):
-            ctx.nontrivial(d['funcs'])
+            ctx.nontrivial([d['funcs'], d['variants']])
     traces = run_cases(ctx, cases)
     judge(ctx, traces)
     ctx.cov['evaluations'] = len(cases)
